@@ -97,6 +97,16 @@ Theorem C18_reference_symmetric : forall e x y,
 Proof. intros. split; [apply spec_equal_sym | apply spec_close_sym]. Qed.
 Print Assumptions C18_reference_symmetric.
 
+(* the comparison is of LOGICAL elements: two array objects (layout, shape, physical buffer) with possibly different
+   memory layouts compare through apply_at, i.e. equal shape and equal / close elements at every multi-index
+   (logical L s buf = the elements in ndindex order), whatever the two layouts *)
+Theorem C18_layout_independent : forall nd L s d L' s' d',
+  pos s -> zlen d = prod s -> pos s' -> zlen d' = prod s' ->
+  isequal_arrL nd L s d L' s' d' = Ret (all2 Z.eqb s s' && all2 Z.eqb (logical L s d) (logical L' s' d')) /\
+  forall eps, isclose_arrL nd eps L s d L' s' d' = Ret (all2 Z.eqb s s' && all2 (close eps) (logical L s d) (logical L' s' d')).
+Proof. exact isequal_arrL_spec. Qed.
+Print Assumptions C18_layout_independent.
+
 (* record of the behaviour BEFORE the fix "scalar difference in the common type": with an unsigned operand the
    subtraction wrapped and closeness was order dependent (the class stays listed until that fix is in /repo) *)
 Theorem C18_isclose_unsigned_refuted : exists eps a b,
@@ -122,4 +132,11 @@ Example C18_nonvacuous_3 :
   /\ isclose true 1 (Arr [2;3] [0;1;2;3;4;5]) (Arr [3;2] [0;1;2;3;4;5]) = Ret false
   /\ isclose false 1 (Arr [2;2] [0;1;2;3]) (Arr [2;3] [0;1;2;3;4;5]) = Ret false
   /\ isclose true 8 (ELeft (Arr [1] [0])) (Arr [1] [4]) = Ret true.
+Proof. vm_compute. repeat split. Qed.
+Example C18_nonvacuous_4 :
+  (* row-major [[0,1,2],[3,4,5]] against the column-major object holding the same matrix (buffer 0,3,1,4,2,5): equal;
+     against the column-major object whose BUFFER is identical (matrix [[0,2,4],[1,3,5]]): different *)
+  isequal_arrL true RowMajor [2;3] [0;1;2;3;4;5] ColMajor [2;3] [0;3;1;4;2;5] = Ret true
+  /\ isequal_arrL true RowMajor [2;3] [0;1;2;3;4;5] ColMajor [2;3] [0;1;2;3;4;5] = Ret false
+  /\ logical ColMajor [2;3] [0;1;2;3;4;5] = [0;2;4;1;3;5].
 Proof. vm_compute. repeat split. Qed.
